@@ -116,6 +116,8 @@ FIXED = [
     ("C03", "C03/internal:ValueError@logger.py:log_syslog", "f9eb3c7",
      "logmethod = syslog (the shipped default) and a selector containing NUL: syslog.syslog() raises ValueError while the request "
      "is being logged, no reply"),
+    ("C03", "C03/internal:ValueError@spartan.py:handle", "20b197a",
+     "Spartan request whose content length has more than 4300 digits: int() raises ValueError, no reply"),
     ("C03", "C03/internal:ValueError@mbox.py:canhandlerequest", "f1b5709",
      "'/x.mbox|/MBOX-MESSAGE/<more than 4300 digits>': int() raises ValueError, no reply"),
     ("C03", "C03/internal:ValueError@scriptexec.py:write", "c29dce8",
